@@ -20,6 +20,11 @@ import (
 	"verif/harness/vlib/refcurve"
 )
 
+// errAggregatorRejected is returned by a scenario's output check when every party completed but
+// the aggregator refused to release a signature: that is a detection ("at least one honest
+// party, or the aggregator, rejects"), not a violation.
+var errAggregatorRejected = fmt.Errorf("aggregator rejected the partial signatures")
+
 // A scenario is one protocol in one small configuration. Runners are rebuilt for every run
 // (honest baseline, parallel session, faulty run) from plain seeds.
 type scenario struct {
@@ -189,9 +194,12 @@ func scenarios() []*scenario {
 				return rs, nil
 			},
 			check: func(outs map[proto.ID]any) error {
+				if len(outs) < len(q) {
+					return nil // not every partial signature exists: nothing to aggregate
+				}
 				sig, err := bip.Aggregate(shards[q[0]], msg, outs)
 				if err != nil {
-					return nil // the aggregator refused: nothing was released
+					return errAggregatorRejected // the aggregator refused: nothing was released
 				}
 				if err := bip.VerifyLib(shards[q[0]], msg, sig); err != nil {
 					return fmt.Errorf("aggregator released a signature the library verifier rejects: %v", err)
@@ -247,12 +255,12 @@ func scenarios() []*scenario {
 						ps = append(ps, o)
 					}
 				}
-				if len(ps) == 0 {
+				if len(ps) < len(q) {
 					return nil
 				}
 				sig, err := es.DKLS23Aggregate(shards[q[0]], msg, ps)
 				if err != nil {
-					return nil
+					return errAggregatorRejected
 				}
 				return verifyECDSA(es, shards[q[0]], msg, sig)
 			},
